@@ -911,6 +911,13 @@ def make_validator_class():
     return validators.extend(base, validators={"pattern": pattern_utf16})
 
 
+SCHEMA_KEYWORDS = {
+    "minLength", "maxLength", "minItems", "maxItems", "pattern", "required", "type", "enum",
+    "const", "properties", "items", "allOf", "oneOf", "anyOf", "$ref", "$id", "$schema",
+    "definitions", "contentEncoding", "title", "description", "additionalProperties",
+}
+
+
 class Schema:
     """The generated ``schema.json`` of one meta-model, parsed, checked and ready to validate."""
 
@@ -940,6 +947,9 @@ class Schema:
         except jsonschema.exceptions.SchemaError as err:
             where = "/".join(str(p) for p in list(err.absolute_path)[-3:])
             keyword = err.validator
+            last = str(list(err.absolute_path)[-1]) if err.absolute_path else ""
+            if last in SCHEMA_KEYWORDS:
+                keyword = f"{keyword}@{last}"
             problems.append(
                 (f"schema-invalid/metaschema/{keyword}",
                  {"message": err.message[:500], "path": [str(p) for p in err.absolute_path], "tail": where})
@@ -1521,9 +1531,9 @@ def classify_rejection(op: Opened, inst: Inst, doc: Any, err: Any) -> Tuple[str,
             if hit.kind == "value" and hit.owner.props.get(r.guard[1]) is not None
         ]
         if value_kind == "bytes" and keyword in ("minLength", "maxLength"):
-            lo_a, hi_a, _ = effective(recs + active)
-            bound = (lo_a if keyword == "minLength" else hi_a)
-            if bound is not None and bound[0] == err.validator_value:
+            # any recognised byte bound of that kind (the tightest one, or a looser one
+            # stated by an ancestor / the constrained primitive) explains the keyword
+            if any(r.kind == kind and r.value == err.validator_value for r, _ in recs + active):
                 detail["byte_length"] = len(hit.value)
                 detail["base64_length"] = b64len(len(hit.value))
                 return f"{prefix}/bytes-length-on-base64-text/{keyword}", detail
